@@ -6,7 +6,7 @@
 // ------------------------------------------------------------------------
 
 use super::{BerDecoder, BerHeader, SnmpOid, TAG_RELATIVE_OID, Tag};
-use crate::error::SnmpResult;
+use crate::error::{SnmpError, SnmpResult};
 
 #[derive(Debug, PartialEq, Clone)]
 pub struct SnmpRelativeOid<'a>(&'a [u8]);
@@ -23,6 +23,26 @@ impl<'a> BerDecoder<'a> for SnmpRelativeOid<'a> {
 }
 
 impl SnmpRelativeOid<'_> {
+    /// Checked version of `normalize` for untrusted input:
+    /// refuse operands `normalize` cannot combine.
+    pub fn try_normalize<'a>(&self, oid: &SnmpOid) -> SnmpResult<SnmpOid<'a>> {
+        if oid.0.is_empty() || self.0.is_empty() {
+            return Err(SnmpError::InvalidData);
+        }
+        let rel_si = SnmpRelativeOid::subelements(self.0);
+        let base_si = SnmpRelativeOid::subelements(&oid.0[1..]);
+        if rel_si >= base_si {
+            // Full replacement: first two subelements are collapsed into one octet
+            if self.0.len() < 2 {
+                return Err(SnmpError::InvalidData);
+            }
+            self.0[0]
+                .checked_mul(40)
+                .and_then(|x| x.checked_add(self.0[1]))
+                .ok_or(SnmpError::InvalidData)?;
+        }
+        Ok(self.normalize(oid))
+    }
     /// Apply relative oid to absolute one
     /// and return normalized absolute oid
     pub fn normalize<'a>(&self, oid: &SnmpOid) -> SnmpOid<'a> {
